@@ -193,6 +193,9 @@ func builtinIntrinsics() map[string]Intrinsic {
 	noop := func(x *Exec, s *State, a []Value, _ *ssa.Call) []Outcome { return one(nil) }
 	m["(*sync.Once).Do"] = inOnceDo
 	m["encoding/json.Marshal"] = inJSONMarshal
+	m[RepoModule+"/internal/safehtmlutil.Indirect"] = inIndirect
+	m[RepoModule+"/internal/safehtmlutil.indirectToStringerOrError"] = inIndirectToStringer
+	m[RepoModule+"/template.indirectToStringerOrError"] = inIndirectToStringer
 	m["(*sync.Mutex).Lock"] = noop
 	m["(*sync.Mutex).Unlock"] = noop
 	m["(*sync.RWMutex).RLock"] = noop
@@ -832,6 +835,15 @@ func (x *Exec) stringify(s *State, v Value) (Str, bool) {
 		// the safe types: struct{ str string } with a String method
 		if len(inner.F) == 1 {
 			if str, ok := inner.F[0].(Str); ok && hasStringMethod(iv.T) {
+				return str, true
+			}
+		}
+	case Ptr:
+		if inner.Obj == 0 {
+			return StrOf("<nil>"), true
+		}
+		if sv, ok := s.load(inner).(*StructVal); ok && len(sv.F) == 1 && hasStringMethod(iv.T) {
+			if str, ok := sv.F[0].(Str); ok {
 				return str, true
 			}
 		}
